@@ -14,11 +14,12 @@ Definition c09_out_ok (fs : list face) (o : out) : bool :=
   end.
 Definition c09_outs_ok (fs : list face) (os : list out) : bool := forallb (c09_out_ok fs) os.
 
-(* an inbound packet that violates the scope: /localhost name from a non-local face *)
+(* an inbound packet that violates the scope: /localhost name from a non-local face — or from a face that is not (or no longer)
+   in the face table: nothing says it is local, and the pipelines drop every packet of an unknown face *)
 Definition c09_inbound_violation (fs : list face) (f : N) (n : name) : bool :=
   match get_face fs f with
   | Some g => negb (f_local g) && spec_localhost n
-  | None => false
+  | None => spec_localhost n
   end.
 
 (* ---- C01: Data is delivered exactly to the faces with a matching pending Interest.
